@@ -166,10 +166,8 @@ def c04_oracle(base, spec, out, keys=None):
             for u in op[2]:
                 for w in u["weapons"]:
                     final_w[(op[1], w[0])] = (w[1], w[2])
-    for (sec, uid), u in last.items():
-        p = vo.by_name.get(sec.encode(), [None])[0]
-        if p is None:
-            continue
+    # every section of that name must hold the authored values (a name may occur more than once: the game reads the last)
+    for ((sec, uid), u), p in [(it, p_) for it in last.items() for p_ in vo.by_name.get(it[0][0].encode(), [])]:
         arr = S.spec_parse(S.SPEC_FULL[sec], p, 0)[0]
         checks = [("_unit_default_settings_flags", int(u["default"])), ("_unit_hitpoints", u["hp"]),
                   ("_unit_shieldpoints", u["sh"]), ("_unit_armorpoints", u["ar"]), ("_unit_build_times", u["bt"]),
